@@ -12,6 +12,9 @@
                            builds each program on its own)
      cli <expr bytes> <flags>  -> the real `addchain search`: last element of the chain loaded from
                            its standard output = value of the target expression (model/Calc.v)
+     longload <ops>     -> long programs: the printed script loaded through LoadString, LoadReader
+                           and LoadFile; result = length and last element of the chain (the model
+                           evaluates the program only: the text layer of these sizes is the oracle's)
      names <ops>        -> identifiers after the naming passes, by operand index
      dangling <ops>     -> pass.CheckDanglingInputs(acc.Decompile(p)) *)
 From Coq Require Import String.
@@ -88,7 +91,9 @@ Definition run (line : list N) : list N :=
       match parse_ops a with
       | None => r_badcase
       | Some p =>
-          if str_eqb f $"decompile" then print_outcome print_ir (decompile p)
+          if str_eqb f $"longload" then
+            print_outcome (fun c => print_nat (length c) ++ [sp] ++ print_hexZ (last c 0%Z)) (evaluate p)
+          else if str_eqb f $"decompile" then print_outcome print_ir (decompile p)
           else if str_eqb f $"build" then print_outcome print_script (build_program p)
           else if str_eqb f $"rebuild" then print_outcome print_script (build_program p)
           else if str_eqb f $"expand" then print_outcome print_ops (obind (decompile p) compile)
